@@ -132,14 +132,18 @@ pub struct WordMon {
     second: bool,
     entry: bool,
     prev: u32,
+    /// no interrupt was ever requested in this run: the interrupt entry sequence must not be visited
+    pub no_request: bool,
 }
 
 impl WordMon {
     pub fn new(m: &Machine) -> Self {
-        WordMon { second: false, entry: false, prev: control_word(m) }
+        WordMon { second: false, entry: false, prev: control_word(m), no_request: false }
     }
     pub fn reset(&mut self, m: &Machine) {
+        let nr = self.no_request;
         *self = WordMon::new(m);
+        self.no_request = nr;
     }
     pub fn after_edge(&mut self, m: &Machine) -> Result<(), (&'static str, String)> {
         let cur = control_word(m);
@@ -160,6 +164,12 @@ impl WordMon {
             }
         }
         self.prev = cur;
+        if self.entry && self.no_request {
+            return Err((
+                "left-routine",
+                format!("the interrupt entry sequence (control word {:07X}) is running although no interrupt was ever requested (IR=0x{:02X})", cur, ir),
+            ));
+        }
         let t = tables();
         let ok = if self.entry {
             t.entry.contains(&cur)
@@ -197,6 +207,7 @@ impl C09 {
         ls.lenient = true;
         ls.check_reset = false;
         let mut mon = WordMon::new(&ls.sut);
+        mon.no_request = !key;
         let label = |e: Violation| -> Violation {
             let mut e = e;
             e.detail = format!("case f=0x{:X} key={} data={}: {}", f, key, di, e.detail);
